@@ -213,8 +213,6 @@ fn join_fields(f: &Fields) -> String {
 /// one of the recorded findings; the property is `Ref::default()`.
 #[derive(Clone, Copy, Default, PartialEq, Eq)]
 struct Ref {
-    /// D10: bookmarks through plain i32 parsing (no trim, full i32 range)
-    raw_bookmarks: bool,
     /// D14: f32 limit is 2^31 instead of 2^31-1
     f32_limit_pow31: bool,
 }
@@ -590,12 +588,11 @@ fn ref_kv(sec: Sec, st: &mut Fields, line: &str, r: Ref) -> Result<(), Ambiguous
         }
         Conv::Bookmarks => {
             let mut out = vec![];
+            // every element is a number of the format like any other: trimmed, within
+            // +-(2^31-1); an element that is not is skipped (plain i32 parsing of the
+            // elements -- no trim, -2147483648 accepted -- was finding D10, repaired)
             for piece in v.split(',') {
-                if r.raw_bookmarks {
-                    if let Ok(n) = piece.parse::<i32>() {
-                        out.push(n as i64);
-                    }
-                } else if let Some(n) = ref_int(piece.trim()) {
+                if let Some(n) = ref_int(piece.trim()) {
                     out.push(n);
                 }
             }
@@ -818,7 +815,6 @@ fn differing(a: &Fields, want: &Fields) -> Vec<String> {
 // ---------------------------------------------------------------------------
 
 struct Known {
-    d10: u32,
     d14: u32,
 }
 
@@ -868,30 +864,20 @@ fn run_case(sec: Sec, lines: &[String], tag: &str, out: &mut Out, known: &mut Kn
     }
     // classify against the recorded findings: the deviation must be exactly
     // the one the finding describes
-    let variants = [
-        ("D10", Ref { raw_bookmarks: true, ..Ref::default() }),
-        ("D14", Ref { f32_limit_pow31: true, ..Ref::default() }),
-    ];
+    let variants = [("D14", Ref { f32_limit_pow31: true })];
     let mut class = "";
-    let mut also = String::new();
-    // single findings first, then both together (a sequence may contain several).
-    // A deviation in where a record is cut (first colon) has no class: it is a
-    // violation.
-    'search: for mask in [1u8, 2, 3] {
-        let v = Ref { raw_bookmarks: mask & 1 != 0, f32_limit_pow31: mask & 2 != 0 };
+    // A deviation in where a record is cut (first colon), in how the elements of
+    // a Bookmarks value are read (trimmed, within the limits) or in a break's end
+    // time has no class: it is a violation.
+    for (id, v) in variants {
         if let Some(w) = reference(sec, lines, v) {
             if differing(&got, &w).is_empty() {
-                let ids: Vec<&str> = variants.iter().enumerate().filter(|(k, _)| mask & (1 << k) != 0).map(|(_, x)| x.0).collect();
-                class = ids[0];
-                if ids.len() > 1 {
-                    also = format!(" (together with {})", ids[1..].join(", "));
-                }
-                break 'search;
+                class = id;
+                break;
             }
         }
     }
     let slot = match class {
-        "D10" => Some(&mut known.d10),
         "D14" => Some(&mut known.d14),
         _ => None,
     };
@@ -902,7 +888,7 @@ fn run_case(sec: Sec, lines: &[String], tag: &str, out: &mut Out, known: &mut Kn
             return; // keep room in the failure list for anything unlisted
         }
     }
-    out.fail(class, &desc, &format!("{}{}", diff.join("; "), also));
+    out.fail(class, &desc, &diff.join("; "));
 }
 
 // ---------------------------------------------------------------------------
@@ -1030,11 +1016,11 @@ fn bookmark_values() -> Vec<(String, &'static str)> {
     for s in ["2147483647,1", "-2147483647", "2147483648,2", "99999999999,3"] {
         v.push((s.into(), "boundary"));
     }
-    for s in ["-2147483648", "1,-2147483648,2"] {
-        v.push((s.into(), "d10-min"));
+    for s in ["-2147483648", "1,-2147483648,2", "2147483648", "-2147483647,2147483647", "1,+2147483648,-2147483649,2"] {
+        v.push((s.into(), "limit"));
     }
-    for s in ["1, 2,3", "1 ,2", "1,\t2", "1,2 ,3", "1,\u{a0}2"] {
-        v.push((s.into(), "d10-padded"));
+    for s in ["1, 2,3", "1 ,2", "1,\t2", "1,2 ,3", "1,\u{a0}2", " 7 , 8 ,\u{3000}9", "1, 2 ,-2147483648,2147483647,x,,3", "1, ,2", " -2147483647 , 2147483648 "] {
+        v.push((s.into(), "padded"));
     }
     v
 }
@@ -1401,7 +1387,7 @@ pub const RULE: &str = "sequences of section lines run through the public parse_
 pub fn generate(tier: &str, seed: u64, out: &mut Out) {
     let thorough = tier == "thorough";
     let mut r = Rng::new(seed ^ 0xC11);
-    let mut known = Known { d10: 0, d14: 0 };
+    let mut known = Known { d14: 0 };
     let s = |x: &str| x.to_string();
 
     // corpus: recorded findings and readings first
@@ -1413,6 +1399,8 @@ pub fn generate(tier: &str, seed: u64, out: &mut Out) {
     run_case(Sec::Editor, &[s("GridSize:4:5"), s("Bookmarks:1,2:3,4"), s("BeatDivisor: 8 : ")], "corpus", out, &mut known);
     run_case(Sec::Editor, &[s("Bookmarks: -2147483648")], "corpus", out, &mut known);
     run_case(Sec::Editor, &[s("Bookmarks: 1, 5,7 ,9")], "corpus", out, &mut known);
+    run_case(Sec::Editor, &[s("Bookmarks: 1, 2 ,-2147483648,2147483647,x,,3")], "corpus", out, &mut known);
+    run_case(Sec::Editor, &[s("Bookmarks: 2147483648, -2147483647 ,+5,0x10,1e3,")], "corpus", out, &mut known);
     run_case(Sec::General, &[s("StackLeniency: 2147483648")], "corpus", out, &mut known);
     run_case(Sec::Difficulty, &[s("OverallDifficulty:8"), s("ApproachRate:9"), s("OverallDifficulty:7")], "corpus", out, &mut known);
     run_case(Sec::Difficulty, &[s("SliderMultiplier:3.7"), s("SliderTickRate:0.1")], "corpus", out, &mut known);
@@ -1546,6 +1534,5 @@ pub fn generate(tier: &str, seed: u64, out: &mut Out) {
         }
         run_case(sec, &lines, "random", out, &mut known);
     }
-    out.count_n("oracle.known.D10.total", known.d10 as u64);
     out.count_n("oracle.known.D14.total", known.d14 as u64);
 }
